@@ -62,6 +62,18 @@ static void lput(const char *fmt, ...) {
 #define MAXF 16
 #define MAXC 8
 static JanetFiber *fib[MAXF]; static int nfib;
+/* In a program with forced collections at log points only (opt_gc == 1 at the time of vreg) the spawned fibers are NOT
+ * rooted by the harness: a fiber waiting on a channel is then kept alive by the channel's pending queue alone (its mark
+ * function), a finished fiber is garbage.  What the log needs of a fiber (sched_id, status, last value) is cached while
+ * the fiber is allocated; natural collections are switched off in such a program, so a fiber can only be freed by a forced
+ * collection, i.e. right after the cache was refreshed. */
+static int fib_rooted[MAXF], fib_freed[MAXF], fib_lost[MAXF];
+static uint32_t fib_sched[MAXF];
+static char fib_status[MAXF][48];
+static size_t saved_gc_interval = 0;
+static void canon(Janet x);
+static const char *status_name(JanetFiber *f);
+static void fib_refresh(void);
 static JanetChannel *chs[MAXC]; static int nch;
 
 static int fidx(JanetFiber *f) { for (int i = 0; i < nfib; i++) if (fib[i] == f) return i; return -1; }
@@ -207,8 +219,27 @@ static void dump_pending(JanetQueue *q) {
  * which is not part of the compared log: the model keeps the queues as lists) */
 static int geo_wrapped = 0, geo_maxcap = 0, geo_full_wrapped = 0;
 
+static void fib_refresh(void) {
+    for (int i = 0; i < nfib; i++) {
+        if (!fib[i] || fib_freed[i]) continue;
+        if (MEM_FREED(fib[i], sizeof(JanetFiber))) {
+            fib_freed[i] = 1;
+            /* finished fibers are garbage; anything else was still needed */
+            if (strncmp(fib_status[i], "dead", 4) && strncmp(fib_status[i], "error", 5)) fib_lost[i] = 1;
+            continue;
+        }
+        fib_sched[i] = fib[i]->sched_id;
+        size_t mark = lgn;
+        lput("%s", status_name(fib[i]));
+        if (janet_fiber_status(fib[i]) == JANET_STATUS_ERROR) { lput(":"); canon(fib[i]->last_value); }
+        snprintf(fib_status[i], sizeof fib_status[i], "%s", lg + mark);
+        lgn = mark; lg[lgn] = 0;
+    }
+}
+
 static void dump_state(void) {
-    if (opt_gc & 1) { janet_collect(); n_collections++; }
+    fib_refresh();
+    if (opt_gc & 1) { janet_collect(); n_collections++; fib_refresh(); }
     for (int c = 0; c < nch; c++) {
         JanetChannel *ch = chs[c];
         if (ch->items.head > ch->items.tail) {
@@ -256,7 +287,12 @@ static void dump_state(void) {
              t->curr_fiber ? (janet_fiber_can_resume(t->curr_fiber) ? "+" : "-") : "", t->is_error ? "!" : "");
     }
     lput("|s=");
-    for (int i = 0; i < nfib; i++) lput("%s%u", i ? "," : "", fib[i]->sched_id);
+    for (int i = 0; i < nfib; i++) lput("%s%u", i ? "," : "", fib_sched[i]);
+    {   /* fibers that a collection freed although they had not finished (waiting in a channel's pending queue, ...) */
+        int any = 0;
+        for (int i = 0; i < nfib; i++) if (fib_lost[i]) { lput("%s%d", any ? "," : "|z=", i); any = 1; }
+        if (any) { opt_gc = 0; }
+    }
 }
 
 /* ---- cfuns visible to the generated programs ---------------------------------------------------------------- */
@@ -275,7 +311,8 @@ static Janet cfun_vreg(int32_t argc, Janet *argv) {
     if (k < 0 || k >= MAXF) janet_panic("vreg index");
     fib[k] = janet_getfiber(argv, 0);
     if (k >= nfib) nfib = k + 1;
-    janet_gcroot(argv[0]);
+    fib_rooted[k] = (opt_gc != 1);
+    if (fib_rooted[k]) janet_gcroot(argv[0]);
     return argv[0];
 }
 static Janet cfun_vb(int32_t argc, Janet *argv) {
@@ -307,6 +344,11 @@ static Janet cfun_vpay(int32_t argc, Janet *argv) {
 static Janet cfun_vopt(int32_t argc, Janet *argv) {
     janet_fixarity(argc, 1);
     opt_gc = janet_getinteger(argv, 0);
+    if (opt_gc == 1 && !saved_gc_interval) {
+        /* only the forced collections run in this program */
+        saved_gc_interval = janet_vm.gc_interval;
+        janet_vm.gc_interval = (size_t) 1 << 40;
+    }
 #ifdef JANET_VERIF
     janet_verif_gc_safepoint = (opt_gc & 2) ? safepoint_always : NULL;
 #endif
@@ -338,6 +380,8 @@ static void run_program(const char *id, uint32_t seed, const char *src) {
     janet_verif_gc_safepoint = NULL;
 #endif
     memset(fib, 0, sizeof fib); memset(chs, 0, sizeof chs);
+    memset(fib_rooted, 0, sizeof fib_rooted); memset(fib_freed, 0, sizeof fib_freed); memset(fib_lost, 0, sizeof fib_lost);
+    memset(fib_sched, 0, sizeof fib_sched); memset(fib_status, 0, sizeof fib_status);
     janet_rng_seed(&janet_vm.ev_rng, seed);
     JanetRNG copy = janet_vm.ev_rng;
     char rbuf[1024]; size_t rn = 0;
@@ -358,7 +402,7 @@ static void run_program(const char *id, uint32_t seed, const char *src) {
         } else {
             JanetFiber *mainf = janet_fiber(janet_unwrap_function(fn), 64, 0, NULL);
             mainf->env = env;
-            fib[0] = mainf; nfib = 1;
+            fib[0] = mainf; nfib = 1; fib_rooted[0] = 1;
             janet_gcroot(janet_wrap_fiber(mainf));
             janet_schedule(mainf, janet_wrap_nil());
             int steps = 0;
@@ -372,10 +416,8 @@ static void run_program(const char *id, uint32_t seed, const char *src) {
     }
     lput(";F"); dump_state();
     lput("|st=");
-    for (int i = 0; i < nfib; i++) {
-        lput("%s%s", i ? "," : "", fib[i] ? status_name(fib[i]) : "none");
-        if (fib[i] && janet_fiber_status(fib[i]) == JANET_STATUS_ERROR) { lput(":"); canon(fib[i]->last_value); }
-    }
+    for (int i = 0; i < nfib; i++) lput("%s%s%s", i ? "," : "", fib[i] ? fib_status[i] : "none", fib_lost[i] ? "!freed" : "");
+    if (saved_gc_interval) { janet_vm.gc_interval = saved_gc_interval; saved_gc_interval = 0; }
     lput("|lc=%d", (int) janet_atomic_load(&janet_vm.listener_count));
 #ifdef JANET_VERIF
     janet_verif_gc_safepoint = NULL;
@@ -391,12 +433,12 @@ static void run_program(const char *id, uint32_t seed, const char *src) {
     if (idle_clean) {
         janet_vm.listener_count = 0;
         /* the abandoned fibers are still listed as live tasks (a GC root): forget them */
-        for (int i = 0; i < nfib; i++) if (fib[i]) janet_table_remove(&janet_vm.active_tasks, janet_wrap_fiber(fib[i]));
+        for (int i = 0; i < nfib; i++) if (fib[i] && !fib_freed[i]) janet_table_remove(&janet_vm.active_tasks, janet_wrap_fiber(fib[i]));
         if (janet_vm.active_tasks.count != 0) idle_clean = 0;
     }
     int dirty = (strcmp(verdict, "ok") != 0 && !idle_clean) || janet_atomic_load(&janet_vm.listener_count) != 0
                 || janet_vm.spawn.head != janet_vm.spawn.tail || janet_vm.tq_count != 0;
-    for (int i = 0; i < nfib; i++) if (fib[i]) janet_gcunroot(janet_wrap_fiber(fib[i]));
+    for (int i = 0; i < nfib; i++) if (fib[i] && fib_rooted[i]) janet_gcunroot(janet_wrap_fiber(fib[i]));
     for (int i = 0; i < nch; i++) if (chs[i]) janet_gcunroot(janet_wrap_abstract(chs[i]));
     janet_gcunroot(janet_wrap_table(env));
     {   /* whatever a run may leave behind in the VM (the cfun registry grows with every janet_cfuns call, ...) is
